@@ -58,7 +58,7 @@ class Prop(C02):
         mixed = set()            # peers that had paths of two sessions (Source objects) at once
         for k, (o, step) in enumerate(zip(c['ops'], obs)):
             chs, lim, st = step
-            loc, dests, totals, stats, ctrs, bad = st
+            loc, dests, totals, stats, ctrs, bad, rsl = st
             if lim and o[0] == 'ins' and o[8] is not None:
                 signalled.add(o[8][1])
             if o[0] == 'drop' and o[1] == 0:
